@@ -123,7 +123,9 @@ def ms_case(draw, method):
     br = nu + 1 + draw(st.integers(0, 4))
     gains = [draw(st.floats(-2, 2)) for _ in lay["setups"]]
     amps = [[[draw(st.floats(0.3, 3)), draw(st.floats(-3.1, 3.1))] for _ in range(m)] for _ in lay["setups"]]
-    return {"layout": lay, "sys": s, "gains": gains, "amps": amps, "br": br, "method": method, "extraN": draw(st.integers(0, 200))}
+    return {"layout": lay, "sys": s, "gains": gains, "amps": amps, "br": br, "method": method, "extraN": draw(st.integers(0, 200)),
+            "ordextra": draw(st.sampled_from([0, 0, 0, 1, 2, 3, "top"])),  # the user asks for more orders than 2m (up to the largest admissible one)
+            "extraNs": [draw(st.sampled_from([0, 0, 37, 150, 400])) for _ in lay["setups"]]}  # setups may have records of different lengths
 
 
 def _build(case):
@@ -135,7 +137,7 @@ def _build(case):
     N = 4 * (br + 1) * (nmax + lay["nref"]) + 2 * br + 40 + case["extraN"]
     for i, s in enumerate(lay["setups"]):
         amps = [a * complex(math.cos(p), math.sin(p)) for a, p in case["amps"][i]]
-        Y = (10.0 ** case["gains"][i]) * S.free_decay(amps, N, channels=s["chan"])
+        Y = (10.0 ** case["gains"][i]) * S.free_decay(amps, N + (case.get("extraNs") or [0] * 9)[i], channels=s["chan"])
         datasets.append(Y)
         refl.append(list(s["ref_ind"]))
     return S, datasets, refl
@@ -158,6 +160,8 @@ def judge_ms(case, level):
     nonid = any(s["ref_ind"] != list(range(k)) for s in lay["setups"])
     j.tag(method, f"m={m}", "complex" if case["sys"]["complex"] else "real", "refs_moved" if nonid else "refs_leading")
     j.nontrivial(m >= 2 and (unequal or nonid))
+    if len({d.shape[0] for d in datasets}) > 1:
+        j.tag("record-lengths-differ")
     for mode in range(m):
         p = S.Phi[:, mode]
         if np.all(p == p[0]):
@@ -176,12 +180,20 @@ def judge_ms(case, level):
         j.skip("kappa>1e6")
         return j
     tol = 10 * CTOL * kappa
-    ordmax = 2 * m
+    top = (br + 1) * k  # number of columns of a setup's block matrix: the largest order that can be asked for
+    oe = case.get("ordextra", 0)
+    ordmax = top if oe == "top" else min(2 * m + int(oe), top)
+    n2 = 2 * m  # the order at which the tables are judged
+    if ordmax > n2:
+        j.tag("ordmax>2m")
     if level == "function":
         Ydict = sut(gen.pre_multisetup, [d.copy() for d in datasets], [list(r) for r in refl])
         if not j.check(not raised(Ydict), "split-raises", lambda: f"{Ydict!r}"):
             return j
         out = sut(ssi.SSI_multi_setup, Ydict, S.fs, br, ordmax, method_hank=method)
+        if raised(out) and out.type == "LinAlgError" and ordmax > n2:
+            j.skip("singular-above-the-true-order")  # exact data have rank 2m: orders above it may be exactly singular
+            return j
         if not j.check(not raised(out), "ms-raises", lambda: f"{out!r}"):
             return j
         Obs, A, C = out
@@ -190,7 +202,7 @@ def judge_ms(case, level):
             return j
         Fn, Xi, Phi, Lam = pol[0], pol[1], pol[2], pol[3]
         if j.check(Phi.shape == (ordmax, ordmax + 1, lay["ntot"]), "ms-shape", lambda: f"{Phi.shape} expected {(ordmax, ordmax + 1, lay['ntot'])}"):
-            _judge_modes(j, S, Fn[:, ordmax], Xi[:, ordmax], Phi[:, ordmax, :], Lam[:, ordmax], tol, "ms")
+            _judge_modes(j, S, Fn[:, n2], Xi[:, n2], Phi[:, n2, :], Lam[:, n2], tol, "ms")
         return j
     ms = sut(lambda: MultiSetup_PreGER(fs=S.fs, ref_ind=[list(r) for r in refl], datasets=[d.copy() for d in datasets]))
     if not j.check(not raised(ms), "preger-raises", lambda: f"{ms!r}"):
@@ -202,6 +214,9 @@ def judge_ms(case, level):
     alg = cls(**kw)
     ms.add_algorithms(alg)
     r = sut(ms.run_all)
+    if raised(r) and r.type == "LinAlgError" and ordmax > n2:
+        j.skip("singular-above-the-true-order")
+        return j
     if not j.check(not raised(r), "run-raises", lambda: f"{r!r}"):
         return j
     res = alg.result
@@ -211,7 +226,7 @@ def judge_ms(case, level):
     for i_, (d_, rl_) in enumerate(zip(datasets, refl)):
         mv_ = [c for c in range(d_.shape[1]) if c not in rl_]
         j.check(np.array_equal(ms.data[i_]["ref"], d_[:, rl_].T) and np.array_equal(ms.data[i_]["mov"], d_[:, mv_].T), "data-mutated", lambda: f"dataset {i_}: the split data changed during the run")
-    _judge_modes(j, S, Fn[:, ordmax], Xi[:, ordmax], Phi[:, ordmax, :], Lam[:, ordmax], tol, "table")
+    _judge_modes(j, S, Fn[:, n2], Xi[:, n2], Phi[:, n2, :], Lam[:, n2], tol, "table")
     # a second run on the same multi-setup object must see the same data and give the same tables
     snap = [(d["ref"].copy(), d["mov"].copy()) for d in ms.data]
     r = sut(ms.run_all)
@@ -220,7 +235,7 @@ def judge_ms(case, level):
         j.check(all(np.array_equal(d["ref"], a) and np.array_equal(d["mov"], b) for d, (a, b) in zip(ms.data, snap)), "data-mutated", "the multi-setup object's data changed during a run")
         same = np.array_equal(np.asarray(res.Fn_poles), Fn, equal_nan=True) and np.array_equal(np.asarray(res.Phi_poles), Phi, equal_nan=True)
         j.check(same, "rerun-differs", "a second run of the same algorithm on the same multi-setup object gives different pole tables")
-    r = sut(ms.mpe, "a", sel_freq=[float(f) for f in S.fn], order=ordmax, rtol=1e-3)
+    r = sut(ms.mpe, "a", sel_freq=[float(f) for f in S.fn], order=n2, rtol=1e-3)
     if j.check(not raised(r), "mpe-raises", lambda: f"{r!r}"):
         fn, xi, phi = np.asarray(res.Fn), np.asarray(res.Xi), np.asarray(res.Phi)
         if j.check(fn.shape == (m,) and phi.shape == (lay["ntot"], m), "mpe-shape", lambda: f"{fn.shape} {phi.shape}"):
